@@ -507,8 +507,14 @@ class _Run:
                         w.log.add("query_size", list(size))
                     elif k == "term_props":
                         self.colors = op["colors"]
-                        screen.set_terminal_properties(colors=self.colors)
-                        w.log.add("term_props", self.colors)
+                        if op.get("bib") is None:
+                            screen.set_terminal_properties(colors=self.colors)
+                        else:
+                            # the bright-is-bold setting (with or without another colour depth): the escape sequence of
+                            # every bright basic foreground changes, so rows that are drawn again unchanged must be repainted
+                            screen.set_terminal_properties(colors=self.colors, bright_is_bold=bool(op["bib"]))
+                            res.probe("bright_is_bold_changed_between_frames")
+                        w.log.add("term_props", [self.colors, op.get("bib")])
                     elif k == "html_frame":
                         self.html_frame(op["f"], size)
                 except Exception as e:  # noqa: BLE001
@@ -795,7 +801,14 @@ class DisplayEngine(Engine):
                     prev = self.gen_frame(rng, enc, cols, rows, prev)
                     ops.append({"op": "frame", "f": prev})
             elif r < 0.93:
-                ops.append({"op": "term_props", "colors": rng.choice(COLORS)})
+                tp = {"op": "term_props", "colors": rng.choice(COLORS)}
+                if rng.random() < 0.5:
+                    tp = {"op": "term_props", "colors": cfg["colors"] if rng.random() < 0.7 else rng.choice(COLORS), "bib": rng.random() < 0.5}
+                ops.append(tp)
+                if prev is not None and rng.random() < 0.5:
+                    # ... followed by a frame that repeats most rows of the previous one
+                    prev = self.gen_frame(rng, enc, cols, rows, prev)
+                    ops.append({"op": "frame", "f": prev})
             elif prev is not None:
                 ops.append({"op": "html_frame", "f": prev})
         if not any(o["op"] == "frame" for o in ops):
